@@ -126,12 +126,31 @@ func bigFileRecords(format string, variant int) (data []byte, want []obsItem, fa
 	panic("format " + format)
 }
 
+// dataEOFReader delivers n bytes per Read and returns io.EOF together with the last bytes.
+type dataEOFReader struct {
+	data []byte
+	n    int
+}
+
+func (d *dataEOFReader) Read(p []byte) (int, error) {
+	if len(d.data) == 0 {
+		return 0, io.EOF
+	}
+	k := min(len(p), d.n, len(d.data))
+	copy(p, d.data[:k])
+	d.data = d.data[k:]
+	if len(d.data) == 0 {
+		return k, io.EOF
+	}
+	return k, nil
+}
+
 func bigFiles(r *core.Run, format string, variants []int) {
-	r.Bound("big-files", "about 14 KB of generated records (every field different from record to record; BED: for every N) x deliveries {whole, 1 byte, 7 bytes, 4096 bytes, 4097 bytes per Read}")
+	r.Bound("big-files", "about 14 KB of generated records (every field different from record to record; BED: for every N) x deliveries {whole, 1 byte, 7 bytes, 4096 bytes, 4097 bytes per Read; whole and 5000 bytes per Read with io.EOF arriving together with the last bytes}")
 	core.Clause(r, "big-files", core.Opts{Rule: "hundreds of records written, read back and compared with WHAT WAS WRITTEN (not with another decode), every retained record rendered a second time after the iteration: a record that still points into the reader's buffer changes when the buffer is refilled; non-trivial = all"},
 		func(emit func(bigFileCase) bool) {
 			for _, v := range variants {
-				for _, d := range []string{"whole", "bytes-1", "chunks-7", "chunks-4096", "chunks-4097"} {
+				for _, d := range []string{"whole", "bytes-1", "chunks-7", "chunks-4096", "chunks-4097", "whole+eof", "chunks-5000+eof"} {
 					if !emit(bigFileCase{format, v, d}) {
 						return
 					}
@@ -145,7 +164,11 @@ func bigFiles(r *core.Run, format string, variants []int) {
 			}
 			var rd io.Reader = bytes.NewReader(data)
 			var n int
-			if _, err := fmt.Sscanf(c.Delivery, "bytes-%d", &n); err == nil {
+			if strings.HasSuffix(c.Delivery, "+eof") { // the last bytes arrive together with io.EOF (io.Reader allows it; iotest.DataErrReader, some decompressors do it)
+				chunk := len(data)
+				fmt.Sscanf(c.Delivery, "chunks-%d+eof", &chunk)
+				rd = &dataEOFReader{data: data, n: chunk}
+			} else if _, err := fmt.Sscanf(c.Delivery, "bytes-%d", &n); err == nil {
 				rd = &fixedChunkReader{data: data, n: n}
 			} else if _, err := fmt.Sscanf(c.Delivery, "chunks-%d", &n); err == nil {
 				rd = &fixedChunkReader{data: data, n: n}
